@@ -143,6 +143,7 @@ class C02(runner.Check):
 		ersatz.dinucleotide_shuffle(torch.eye(4)[None].repeat(1, 1, 3), n=1,
 			random_state=0)
 		self._sweep_items = self._plan_sweep(tier)
+		_numba_rng_fns()      # compile now: compiling later would reseed numba's RNG mid-case
 
 	# -- sweep planning: (A, L, block, n_blocks) ---------------------------------
 	def _plan_sweep(self, tier):
